@@ -61,6 +61,8 @@ def sym_scope(scope):
         elif sort == 'str':
             t = z3.String('scope_' + name)
             out[name] = SV('str', t); cons.append(z3.Length(t) <= 3); cons.append(symdb.printable(t))
+        elif sort == 'date':
+            out[name] = SV('date', symdb.date_term('scope_' + name, cons))
         elif sort == 'tuple':
             out[name] = pysem.PyTuple([SV('int', z3.Int('scope_%s_%d' % (name, i))) for i in range(len(dflt))])
         else: raise Unmodelled('scope sort %s' % sort)
@@ -74,6 +76,8 @@ def build_query(db, prog):
     g = {e.__name__: e for e in db.entities.values()}
     for fn in ('count', 'sum', 'min', 'max', 'avg', 'exists', 'select', 'coalesce', 'concat', 'between', 'distinct', 'desc', 'len', 'abs', 'group_concat'):
         g[fn] = getattr(core, fn, None) or __builtins__[fn] if isinstance(__builtins__, dict) else getattr(core, fn, None) or getattr(__builtins__, fn)
+    import datetime
+    g['date'] = datetime.date
     if prog.form == 'string':
         q = core.select(prog.src, g, dict(scope))
     elif prog.form == 'generator':
@@ -314,7 +318,7 @@ def populate(db, tables):
             for r in rows:
                 cols = list(r)
                 cur.execute('INSERT INTO "%s" (%s) VALUES (%s)' % (t, ', '.join('"%s"' % c for c in cols), ', '.join('?' for _ in cols)),
-                            [int(v) if isinstance(v, bool) else v for v in (r[c] for c in cols)])
+                            [int(v) if isinstance(v, bool) else v.isoformat() if hasattr(v, 'isoformat') else v for v in (r[c] for c in cols)])
         cur.execute('PRAGMA foreign_keys = ON')
 
 
